@@ -25,7 +25,7 @@ typedef struct DiplomatTraitStruct_TesterTrait {
     TesterTrait_VTable vtable;
 } DiplomatTraitStruct_TesterTrait;
 
-static void general_destructor(const void* data) {
+static void TesterTrait_general_destructor(const void* data) {
     // TODO
 }
 
